@@ -61,8 +61,10 @@ def unit_store_histories(ctx, fmt, sig_prefix):
     ext = {"h5": ".h5", "ovf": ".ovf", "vtk": ".vtk"}[fmt]
     # a third path: the SAME stem as path 0 with the sibling extension of the format (m0.omf next to m0.ovf, f.hdf5 next to
     # f.h5): two different files, each with its own side-car
-    sibling = {"h5": ".hdf5", "ovf": ".omf", "vtk": None}[fmt]
-    paths = (0, 1, 2) if sibling else (0, 1)
+    # (for VTK the sibling is a file of ANOTHER format with the same stem, m0.omf next to m0.vtk: it is only written)
+    sibling = {"h5": ".hdf5", "ovf": ".omf", "vtk": ".omf"}[fmt]
+    cross = fmt == "vtk"
+    paths = (0, 1, 2)
     depth = 4 if ctx.tier == "quick" else 5
     fields = _fields(fmt, ctx.seed)
     snaps = [C.field_snap(f) for f in fields]
@@ -76,7 +78,7 @@ def unit_store_histories(ctx, fmt, sig_prefix):
             ops = []
             if not last:
                 ops += [("W", i, p) for p in paths for i in ((0, 1, 2) if p != 2 else (1, 2))]
-            ops += [("R", None, p) for p in paths if p in model]
+            ops += [("R", None, p) for p in paths if p in model and not (cross and p == 2)]
             if not last and last_read is not None:
                 ops.append(("M", None, None))
             if not ops:
